@@ -8,7 +8,9 @@ use std::time::Duration;
 use crate::http::*;
 use crate::wire::*;
 
-pub const T: Duration = Duration::from_secs(20);
+/// (a response normally takes well under a millisecond; under heavy machine load a request was once
+/// seen to take more than 20 s, so silence only counts after 90 s)
+pub const T: Duration = Duration::from_secs(90);
 
 /// Outcome of an HTTP-level operation.
 #[derive(Clone, Debug)]
@@ -28,7 +30,7 @@ fn classify<V>(r: Result<Resp, HttpErr>, f: impl FnOnce(Resp) -> HOut<V>) -> HOu
         Ok(resp) => f(resp),
         Err(HttpErr::Connect(e)) => HOut::Infra(e),
         Err(HttpErr::NoResponse(e)) => HOut::Broken(format!("no response: {e}")),
-        Err(HttpErr::Timeout) => HOut::Broken("no response within 20 s".into()),
+        Err(HttpErr::Timeout) => HOut::Broken("no response within 90 s".into()),
         Err(HttpErr::Malformed(e)) => HOut::Broken(format!("malformed response: {e}")),
     }
 }
